@@ -11,17 +11,22 @@ from __future__ import annotations
 import ast
 
 
-def edge_label(test, atom):
+def edge_label(test, atom, resolve=None):
+    """resolve(name node) -> expression: lets a test on a local flag (`ok = a == b; if not ok:`) be read through"""
     v = atom(test)
     if v is True:
         return 'true'
     if v is False:
         return 'false'
+    if isinstance(test, ast.Name) and resolve is not None:
+        r = resolve(test)
+        if not (isinstance(r, ast.Name) and r.id == test.id):
+            return edge_label(r, atom, None)
     if isinstance(test, ast.UnaryOp) and isinstance(test.op, ast.Not):
-        inner = edge_label(test.operand, atom)
+        inner = edge_label(test.operand, atom, resolve)
         return {'true': 'false', 'false': 'true'}.get(inner)
     if isinstance(test, ast.BoolOp):
-        labs = [edge_label(v_, atom) for v_ in test.values]
+        labs = [edge_label(v_, atom, resolve) for v_ in test.values]
         if isinstance(test.op, ast.And) and 'true' in labs:
             return 'true'       # all operands hold on the true edge
         if isinstance(test.op, ast.Or) and 'false' in labs:
@@ -31,13 +36,18 @@ def edge_label(test, atom):
     return None
 
 
+def resolver(cfg, nid):
+    from . import reach
+    return lambda name_node: reach.expand_expr(cfg, nid, name_node, depth=3)
+
+
 def guarded(cfg, target_id, atom):
     """test nodes t (with the label) such that every path to target uses the edge of t on which the condition holds"""
     out = []
     for t in cfg.nodes.values():
         if t.kind != 'test' or t.ast is None:
             continue
-        lab = edge_label(t.ast, atom)
+        lab = edge_label(t.ast, atom, resolver(cfg, t.id))
         if lab and cfg.edge_dominates(t.id, lab, target_id):
             out.append((t, lab))
     return out
